@@ -258,3 +258,7 @@ Definition resp_read (cfg : hcfg) (bsize : nat) (input : bytes) (final : peek_er
     | r => r
     end
   end.
+
+(* ResponseHeader.Read over a source that yields input k bytes at a time (see ReqHead.read_loop) *)
+Definition resp_read_chunks (cfg : hcfg) (bsize k : nat) (input : bytes) (final : peek_err) : try_res resp_head :=
+  read_loop (resp_try_read cfg) (length input + 2) 1 bsize k [] input final.
